@@ -74,6 +74,8 @@ def features_for(ctx, i):
         j = i - 12 - len(pairs)
         return [{"retry": True}, {"zero_rtt": True}, {"ch_split": "desc"}, {"ch_split": "shuffle"}, {"key_updates": 3},
                 {"new_cid": True}][j]
+    if i == 12 + len(pairs) + 6:
+        return {"long": True, "pn_big": False}        # several hundred 1-byte packet numbers in a row
     return {}
 
 
@@ -88,7 +90,7 @@ def explore(ctx, scale=1):
         ctx.hist("suite", f"{f['suite']:04X}")
         ctx.hist("offer_order", f["offer_order"])
         ctx.hist("cid_lens", f"{min(f['scid_c_len'], 1)}/{min(f['scid_s_len'], 1)} (0=empty)")
-        for k in ("retry", "zero_rtt", "ch_split", "key_updates", "new_cid", "pn_big", "v6"):
+        for k in ("retry", "zero_rtt", "ch_split", "key_updates", "new_cid", "pn_big", "v6", "long"):
             ctx.hist(k, f[k])
         if prob:
             o["violations"] += 1
